@@ -231,7 +231,7 @@ STRATA = [(s_cse_variants, 5), (s_bundle_cse_variants, 3), (s_folded_consumers, 
           (from_other(C01.s_logic_chain, "C01"), 2), (from_other(C01.s_sel, "C01"), 2),
           (from_other(C01.s_sel_same_typed, "C01"), 2), (from_other(C01.s_two_producers, "C01"), 2),
           (from_other(C01.s_wire_merge, "C01"), 1), (from_other(C01.s_const_heavy, "C01"), 2),
-          (from_other(C02.s_chain, "C02"), 2), (from_other(C02.s_filter, "C02"), 1), (from_other(C02.s_arith, "C02"), 1),
+          (from_other(C02.s_chain, "C02"), 2), (from_other(C02.s_gate_shared_cond, "C02"), 2), (from_other(C02.s_filter, "C02"), 1), (from_other(C02.s_arith, "C02"), 1),
           (from_other(C06.s_noninline, "C06"), 1), (from_other(C06.s_shared_cmp, "C06"), 1),
           (from_other(C06.s_fanout, "C06"), 1), (from_other(C06.s_chest, "C06"), 1),
           (s_c03, 4), (s_c05, 3)]
